@@ -112,6 +112,11 @@ func (s *ModelServer) ListModes(_ context.Context, request *traits.ListModesRequ
 
 	// page over the unfiltered listing: the read mask may leave out the field the page token is made of
 	sortedModes := s.model.Modes()
+	// the collection lists in the order of its own keys, which an id interceptor can make differ from the
+	// order of the field the page token is made of and the search below relies on
+	sort.Slice(sortedModes, func(i, j int) bool {
+		return sortedModes[i].Id < sortedModes[j].Id
+	})
 	nextIndex := 0
 	if lastKey != "" {
 		nextIndex = sort.Search(len(sortedModes), func(i int) bool {
